@@ -408,7 +408,7 @@ func main() {
 		Assumptions: []string{
 			"the base snapshot is the injected internal dump (tree, bytes, modes, owners, link counts; every volume of the volume table of a Windows-typed MemFS, so that a volume added, removed or re-rooted is a change) plus a public-API dump with mtimes taken directly on the base as administrator; the OrefaFS root directory is not addressable through the API (under either OS type), so its own mtime is not observed",
 			"Windows-typed bases are the library's own emulation (Options.OSType = avfs.OsWindows, build tag avfs_setostype) on a Linux host; the OrefaFS has no volume management, so only the MemFS holds a second volume",
-			"permission CLASS: errors.Is(err, fs.ErrPermission); no particular errno is demanded. On a Windows-typed base Chown/Lchown of a file system answer avfs.ErrWinNotSupported and Symlink answers avfs.ErrWinPrivilegeNotHeld on the base itself as through the RoFS, as package os does on Windows whatever the file system; neither is fs.ErrPermission (for package os either): for these three calls there these values count as the refusal (counted in of_which_windows_typed_chown_lchown_symlink_os_answer). On a handle that was returned together with an error (typed nil or zero RoFile) any error is accepted for a mutating call, on a closed handle a closed-file error is accepted too; a panic never is",
+			"permission CLASS: errors.Is(err, fs.ErrPermission); no particular errno is demanded. On a Windows-typed base Chown/Lchown of a file system answer avfs.ErrWinNotSupported and Symlink answers avfs.ErrWinPrivilegeNotHeld on the base itself as through the RoFS, as package os does on Windows whatever the file system; neither is fs.ErrPermission (for package os either): the check stays strict, reports them as wrong-error-class and the deviation is listed as known finding KF-C09-001. On a handle that was returned together with an error (typed nil or zero RoFile) any error is accepted for a mutating call, on a closed handle a closed-file error is accepted too; a panic never is",
 			"Name() on a typed nil handle panics by design (as (*os.File)(nil).Name()) and is not reported",
 			"view state of the base that the statement does not list (cwd, umask, user, identity manager) is recorded (view_state_changes_recorded) and is not a violation; a view-state call that returns nil is mirrored on the twin, one that returns an error is assumed to have had no effect",
 			"OpenFile with O_EXCL but without O_CREATE and without any write/append/truncate flag is unspecified: only the base snapshot and the absence of a panic are checked; Sub, Type, Features, HasFeature, Idm, Fd are not compared with the base (different by design)",
